@@ -9,3 +9,4 @@ open GoMail.Props.C01
 #print axioms b64_body_roundtrip
 #print axioms render_is_tree
 #print axioms tree_leaves
+#print axioms render_is_tree_all
